@@ -70,6 +70,25 @@ func (p *Program) VerifyFunc(fc *FuncContract) (res *FuncResult) {
 			return
 		}
 	}
+	for name, labels := range fc.UseEnsures {
+		cc := p.Contracts.Funcs[name]
+		if cc == nil {
+			res.Err = fmt.Errorf("%s:%d: useensures names a function without contract: %s", fc.File, fc.Line, name)
+			return
+		}
+		for l := range labels {
+			found := false
+			for _, e := range cc.Ensures {
+				if e.Label == l {
+					found = true
+				}
+			}
+			if !found {
+				res.Err = fmt.Errorf("%s:%d: useensures: %s has no postcondition labelled %s", fc.File, fc.Line, name, l)
+				return
+			}
+		}
+	}
 	x := newExec(p, fc)
 	res.X = x
 	defer func() {
@@ -194,6 +213,9 @@ func (p *Program) VerifyFunc(fc *FuncContract) (res *FuncResult) {
 		x.bindResults(pe, f.Signature, resVal)
 		if !fc.Trusted && (fc.Pure || fc.Assigns != "") {
 			x.frameObligations(fr, ce, fc, r, ri)
+		}
+		if fc.Opts["publishlast"] != "" {
+			x.publishObligations(r, ri)
 		}
 		for i, e := range fc.Ensures {
 			lab := fmt.Sprintf("#%d", i)
@@ -781,6 +803,39 @@ func (x *Exec) frameObligations(fr *Frame, entry *CEnv, fc *FuncContract, r *ret
 			x.oblige("frame", fmt.Sprintf("frame(%s)@ret%d", k, ri), r.cond, f, r.pos,
 				"assigns: memory that existed at entry is unchanged outside the listed locations ("+k+")", false)
 		}
+	}
+}
+
+// publishObligations: see publishSnapshot. On a path where the publishing call
+// ran, every heap equals its value right after that call.
+func (x *Exec) publishObligations(r *retEdge, ri int) {
+	if !x.publishSeen {
+		return
+	}
+	pub := x.b.Eq(x.getHeap(r.st, "G_published"), x.b.Int(1))
+	var keys []string
+	for k := range r.st.heaps {
+		if strings.HasPrefix(k, "G_") || strings.HasPrefix(k, "GA_") || strings.HasPrefix(k, "GP_") {
+			continue
+		}
+		keys = append(keys, k)
+	}
+	sort.Strings(keys)
+	for _, k := range keys {
+		h1 := r.st.heaps[k]
+		var h0 *smt.Term
+		if g, ok := r.st.heaps["GP_"+k]; ok {
+			h0 = g
+		} else if _, ok := x.heapSorts["GP_"+k]; ok {
+			h0 = x.getHeap(r.st, "GP_"+k)
+		} else {
+			h0 = x.initHeap(k)
+		}
+		if h0 == h1 {
+			continue
+		}
+		x.oblige("publish", fmt.Sprintf("publishlast(%s)@ret%d", k, ri), r.cond, x.b.Implies(pub, x.b.Eq(h1, h0)), r.pos,
+			"nothing is written after the publishing call ("+k+")", false)
 	}
 }
 
